@@ -6,7 +6,7 @@ import ast
 
 from sa.astutil import arg_or_kw, call_name, calls_in, contains, enclosing_loop, enclosing_tests, expand, kw, local_defs, loops_in, names_in, raising_ifs, returns_of, stmt_calls, stores
 from sa.cfg import ends_in_raise
-from sa.index import AnalysisError, ancestors, dotted, enclosing_stmt, norm, walk_local, walk_ordered
+from sa.index import AnalysisError, FuncInfo, ancestors, dotted, enclosing_stmt, norm, walk_local, walk_ordered
 from sa.poly import to_poly
 
 EXPLANATION = (
@@ -226,48 +226,63 @@ def r3_attribution(ctx):
         ok = isinstance(st, ast.Assign) and norm(st.targets[0]).endswith("['/output']")
     ctx.check(ok, o.qual + "#per-run-files", "per-run files come from the run's own processor and run index, after the run" if ok else "per-run output files are not attributed to the run's own processor / index", where=o, node=sv[0] if sv else o.node)
     ar = ctx.func(f"{OU}:apply_run_number")
-    fm = [c for c in calls_in(ar.node) if isinstance(c.func, ast.Attribute) and c.func.attr == "format" and c.args and "run_number" in names_in(c.args[0])]
-    ok = len(fm) == 1
-    if ok:
-        p = to_poly(fm[0].args[0])
-        ok = p.degrees("run_number") == {1, 0} or p.degrees("run_number") == {1}
-        ok = ok and len([t for t in p.terms if any(s == "run_number" for s, _ in t)]) == 1
-    ctx.check(ok, ar.qual, "suffix = run_number + const (injective)" if ok else "the file suffix is not an injective function of the run index", where=ar, node=fm[0] if fm else ar.node)
-    # automatic numbering (no run number given): the next number is one above the LARGEST NUMBER already
-    # used - the order is taken over the extracted integers, never over file names ('_9' sorts after
-    # '_10') nor over glob's arbitrary order, nor a count (gaps) - else an existing file's number is reused
-    fa = [c for c in calls_in(ar.node) if isinstance(c.func, ast.Attribute) and c.func.attr == "format" and c.args and "run_number" not in names_in(c.args[0])]
-    if fa:
-        from sa.astutil import flow_exprs
+    # decided per path (sa/paths.py): what is formatted into the '?' placeholder
+    from sa.paths import enumerate_paths
 
-        srcs = [expand(ar, a_) for c in fa for a_ in c.args]
-        cands = []
-        for e_ in srcs:
-            cands.append(e_)
-            if isinstance(e_, ast.Name):
-                cands += [expand(ar, v_) for _, v_ in local_defs(ar, e_.id) if v_ is not None]
-        numeric = False
-        bad_why = None
-        for e_ in cands:
-            for x in ast.walk(e_):
-                agg = None
-                if isinstance(x, ast.Call) and call_name(x) in ("max", "np.max", "numpy.max") and x.args:
-                    agg = expand(ar, x.args[0])
-                elif isinstance(x, ast.Subscript) and isinstance(x.slice, ast.UnaryOp) and isinstance(x.slice.op, ast.USub) and isinstance(x.slice.operand, ast.Constant) and x.slice.operand.value == 1:
-                    inner = expand(ar, x.value)
-                    if isinstance(inner, ast.Call) and call_name(inner) == "sorted" and inner.args and not inner.keywords:
-                        agg = expand(ar, inner.args[0])
-                    else:
-                        bad_why = f"`{norm(x)[:50]}` takes the last entry of something that is not sorted by number"
-                if agg is None:
-                    continue
-                elt = agg.elt if isinstance(agg, (ast.GeneratorExp, ast.ListComp, ast.SetComp)) else (agg.args[0] if isinstance(agg, ast.Call) and call_name(agg) == "map" and agg.args else None)
-                if elt is not None and ((isinstance(elt, ast.Call) and call_name(elt) in ("get_number", "int")) or (isinstance(elt, ast.Name) and elt.id == "get_number")):
-                    numeric = True
-                else:
-                    bad_why = f"the largest entry is taken over `{norm(agg)[:50]}`, which is not the extracted numbers"
-        ok = numeric and bad_why is None
-        ctx.check(ok, ar.qual + "#next-free-number", "automatic numbering: largest extracted number + 1" if ok else f"automatic numbering does not continue after the largest number in use ({bad_why or 'no maximum over the extracted numbers found'}): an existing file's number is handed out again", where=ar, node=fa[0])
+    def _numeric_elt(elt) -> bool:
+        if isinstance(elt, ast.Call) and call_name(elt).split(".")[-1] in ("get_number", "int", "_get_trailing_number"):
+            return True
+        if isinstance(elt, ast.Call):
+            for cal in ctx.R.resolve_call(ar, elt):
+                if isinstance(cal, FuncInfo) and all(_numeric_elt(r.value) or (isinstance(r.value, ast.Constant) and isinstance(r.value.value, int)) for r in returns_of(cal) if r.value is not None):
+                    return True
+        if isinstance(elt, ast.IfExp):
+            return all(_numeric_elt(x) or (isinstance(x, ast.Constant) and isinstance(x.value, int)) for x in (elt.body, elt.orelse))
+        return False
+
+    def _largest_number_plus_one(e) -> tuple[bool, str]:
+        """e == <largest extracted number> + 1 (or the constant 1 when nothing exists yet)."""
+        if isinstance(e, ast.Constant) and e.value == 1:
+            return True, "first file gets number 1"
+        if not (isinstance(e, ast.BinOp) and isinstance(e.op, ast.Add)):
+            return False, f"`{norm(e)[:60]}` is not <largest number in use> + 1"
+        l_, r_ = (e.left, e.right) if isinstance(e.right, ast.Constant) else (e.right, e.left)
+        if not (isinstance(r_, ast.Constant) and r_.value == 1):
+            return False, f"`{norm(e)[:60]}` is not <largest number in use> + 1"
+        agg = None
+        if isinstance(l_, ast.Call) and call_name(l_) in ("max", "np.max", "numpy.max") and l_.args:
+            agg = l_.args[0]
+        elif isinstance(l_, ast.Subscript) and norm(l_.slice) == "-1" and isinstance(l_.value, ast.Call) and call_name(l_.value) == "sorted" and l_.value.args and not [k for k in l_.value.keywords if k.arg in ("key", "reverse")]:
+            agg = l_.value.args[0]
+        if agg is None:
+            return False, f"`{norm(l_)[:60]}` is not the maximum of the numbers in use (last entry of an unsorted / name-sorted list, or a count)"
+        elt = agg.elt if isinstance(agg, (ast.GeneratorExp, ast.ListComp, ast.SetComp)) else (agg.args[0] if isinstance(agg, ast.Call) and call_name(agg) == "map" and agg.args else None)
+        if elt is not None and (_numeric_elt(elt) or (isinstance(elt, ast.Name) and elt.id in ("get_number", "int", "_get_trailing_number"))):
+            return True, "largest extracted number + 1"
+        return False, f"the largest entry is taken over `{norm(agg)[:50]}`, which is not the extracted numbers (file names do not sort by number)"
+
+    n_run = n_auto = 0
+    for q_ in enumerate_paths(ar.node.body, max_paths=256):
+        if q_.exit == "raise":
+            continue
+        fmts = [c_ for fn_, c_, _ in q_.calls if fn_.endswith(".format") and c_.args]
+        for c_ in fmts[:1]:
+            a_ = c_.args[0]
+            given = q_.holds("run_number is None")
+            given = (not given) if given is not None else q_.holds("run_number is not None")
+            if given is None:
+                given = "run_number" in names_in(a_)
+            if given:
+                n_run += 1
+                p = to_poly(a_)
+                ok = (p.degrees("run_number") == {1, 0} or p.degrees("run_number") == {1}) and len([t for t in p.terms if any(s_ == "run_number" for s_, _ in t)]) == 1
+                ctx.check(ok, ar.qual, "suffix = run_number + const (injective)" if ok else f"the file suffix `{norm(a_)[:50]}` is not an injective function of the run index", where=ar, node=getattr(c_, "_src", ar.node))
+            else:
+                n_auto += 1
+                ok, why = _largest_number_plus_one(a_)
+                ctx.check(ok, ar.qual + "#next-free-number", f"automatic numbering: {why}" if ok else f"automatic numbering does not continue after the largest number in use ({why}): an existing file's number is handed out again", where=ar, node=getattr(c_, "_src", ar.node))
+    if not n_run:
+        ctx.fail(ar.qual, "no path formats the run number into the file name", where=ar, node=ar.node)
     so = ctx.func(f"{OO}:Outputs.save_to_file")
     gv = [v for s_, v in local_defs(so, "value") if v is not None]
     ok = len(gv) == 1 and norm(gv[0]).startswith("processor.get(valid_name")
@@ -284,22 +299,16 @@ def r3_attribution(ctx):
 def r4_completeness_and_tables(ctx):
     """build_filenames appends exactly one name per (bucket, format) with no filtering; every format table maps an extension to the writer of that name."""
     bf = ctx.func(f"{OO}:Outputs.build_filenames")
-    g = ctx.cfg(bf)
-    apps = [c for c in calls_in(bf.node) if isinstance(c.func, ast.Attribute) and c.func.attr == "append" and dotted(c.func.value) == "filenames"]
-    ok = len(apps) == 1
-    if ok:
-        lp = enclosing_loop(apps[0])
-        ok = isinstance(lp, ast.For) and dotted(lp.iter) == "formats"
-        nodes = [n for n in g.nodes if n.ast is not None and n.kind == "stmt" and contains(n.ast, apps[0])]
-        lo, hi = g.count_events_per_iteration(g.node_of(lp), nodes) if ok else (0, 0)
-        ok = ok and (lo, hi) == (1, 1)
-        outer = [l for l in loops_in(bf.node) if isinstance(l, ast.For)]
-        ok = ok and [norm(l.iter) for l in outer] == ["self.save_data_to_file", "file_config.items()", "formats"]
-        for l in outer:
-            for x in walk_ordered(l):
-                if isinstance(x, (ast.Continue, ast.Break)):
-                    ok = False
-    ctx.check(ok, bf.qual, "one file name per (bucket, format)" if ok else "build_filenames does not emit exactly one name per requested (bucket, format)", where=bf, node=apps[0] if apps else bf.node)
+    from sa.astutil import accumulator_comp
+
+    # the accumulate-loop (append in nested loops, or extend with a generator) as ONE comprehension
+    rets_ = [r for r in returns_of(bf) if r.value is not None]
+    acc_name = dotted(rets_[0].value) if len(rets_) == 1 else None
+    comp = accumulator_comp(bf.node, acc_name) if acc_name else None
+    if comp is None and len(rets_) == 1 and isinstance(expand(bf, rets_[0].value), ast.ListComp):
+        comp = expand(bf, rets_[0].value)
+    ok = isinstance(comp, ast.ListComp) and [norm(g_.iter) for g_ in comp.generators] == ["self.save_data_to_file", "file_config.items()", "formats"] and not any(g_.ifs for g_ in comp.generators)
+    ctx.check(ok, bf.qual, "one file name per (bucket, format)" if ok else "build_filenames does not emit exactly one name per requested (bucket, format)" + (f": names are produced by {norm(comp)[:90]}" if comp is not None else ""), where=bf, node=bf.node)
     # every written file is reported: accumulated per bucket in a mapping, all entries used
     sf = ctx.func(f"{OU}:save_to_files")
     acc = None
